@@ -224,6 +224,20 @@ theorem next_after_end_prompt {c : Cfg} {s : State} (h : Reachable c s) (hidle :
   refine ⟨{ s with cpc := .idle, nstop := s.nstop + 1 }, ?_, rfl, rfl, rfl, rfl⟩
   simp [run, step, Action.isReader, stepC, hidle, hstop]
 
+/-- C11: a `state_dict()` failure of the source at a due position `p` is surfaced in-band: once the consumer has processed
+    the marker, it has raised the error exactly once, after exactly the `p-1` items preceding the failed one, and
+    (`next_after_end_prompt`) every later `next()` raises StopIteration; `progress`/`variant` apply unchanged. -/
+theorem snapshot_error_surfaced {c : Cfg} {p : Nat} {s : State} (h : Reachable (c.withSnapErr p) s)
+    (hg : s.got.length = (c.src.take (p - 1)).length + 1) : s.errs = 1 ∧ delivered s = c.src.take (p - 1) := by
+  have he := (terminal_surfaced h hg).1 rfl
+  exact ⟨he, complete h (by omega)⟩
+
+example : ∃ s, run (cfgEx.withSnapErr 2) (init (cfgEx.withSnapErr 2))
+      [.rInit, .cBoot, .rIsSet, .rAcq, .rEnter, .rLeave, .rPut, .rIsSet, .rAcq, .rEnter, .rLeave, .rPut, .rExit,
+       .cCall, .cIsSet, .cGet, .cRel, .cPop, .cCall, .cIsSet, .cGet, .cRel, .cSet] = some s ∧
+    delivered s = [7] ∧ s.errs = 1 := by
+  refine ⟨_, rfl, ?_⟩; decide
+
 /-! ## C17 — the reader thread is always released -/
 
 /-- distance of the reader from `exited` once the stop event is set -/
